@@ -126,6 +126,26 @@ fn chain_link(scenario: u32) -> String {
             assert!(*prev.epoch + 1 == *c.epoch);
             (forge(&c, false), prev)
         }
+        6 | 7 | 8 => {
+            // epoch boundary; the previous certificate does not carry the message part that vouches for the next
+            // protocol parameters (6) / the next aggregate key (7); 8 = a truncated previous_hash
+            use mithril_common::entities::ProtocolMessagePartKey;
+            let mut c = certs[1].clone();
+            let mut prev = find(&c.previous_hash);
+            assert!(*prev.epoch + 1 == *c.epoch);
+            if scenario == 8 {
+                c.previous_hash = prev.hash[..prev.hash.len() / 2].to_string();
+                c.hash = c.try_compute_hash().unwrap();
+            } else {
+                prev.protocol_message.message_parts.remove(if scenario == 6 { &ProtocolMessagePartKey::NextProtocolParameters } else { &ProtocolMessagePartKey::NextAggregateVerificationKey });
+                prev.signed_message = prev.protocol_message.compute_hash();
+                prev.hash = prev.try_compute_hash().unwrap();
+                if scenario == 6 { c.metadata.protocol_parameters.k = 1; }
+                c.previous_hash = prev.hash.clone();
+                c.hash = c.try_compute_hash().unwrap();
+            }
+            (c, prev)
+        }
         _ => {
             let genesis = certs[certs.len() - 1].clone();
             let c = certs[certs.len() - 2].clone();
